@@ -175,6 +175,46 @@ class Shared:
 # ----------------------------------------------------------------------------------------------
 
 
+class DualSolver:
+    """Path solver used for pruning / cheap implied facts (only 'unsat' answers are ever relied upon). Quantifier-free facts go to
+    a fast solver; the solver holding ALL facts (incl. quantified invariants and list axioms) is consulted only when the fast one
+    cannot refute, and with a short budget, because z3's quantifier engine burns its whole time-out on satisfiable queries."""
+
+    def __init__(self):
+        self.qf = z3.Solver()
+        self.qf.set("timeout", 1500)
+        self.full = z3.Solver()
+        self.full.set("timeout", 400)
+        self.nq = [0]
+
+    def add(self, t):
+        self.full.add(t)
+        if smt._contains_quantifier(t):
+            self.nq[-1] += 1
+        else:
+            self.qf.add(t)
+
+    def push(self):
+        self.qf.push()
+        self.full.push()
+        self.nq.append(0)
+
+    def pop(self):
+        self.qf.pop()
+        self.full.pop()
+        self.nq.pop()
+
+    def check(self):
+        r = self.qf.check()
+        if r == z3.unsat or sum(self.nq) == 0:
+            return r
+        r2 = self.full.check()
+        return r2 if r2 == z3.unsat else r
+
+    def set(self, *a, **k):
+        self.qf.set(*a, **k)
+
+
 class Engine:
     def __init__(self, shared, contract, registry, prefix):
         self.sh = shared
@@ -184,8 +224,7 @@ class Engine:
         self.trace = []
         self.pending = []
         self.pc = []
-        self.solver = z3.Solver()
-        self.solver.set("timeout", 1500)
+        self.solver = DualSolver()
         self.lists = {}
         self.next_loc = 0
         self.heap = {}
